@@ -8,6 +8,7 @@ import re
 
 from . import common
 from . import pure
+from . import c17mx
 
 PROOFS = ["proofs/AtomicsProofs.v", "proofs/MutexWordProofs.v", "proofs/MutexExclProofs.v", "proofs/MutexAcctProofs.v",
           "models/Atomics.v", "models/MutexWord.v"]
@@ -600,7 +601,7 @@ def run(chk):
     chk.run_proof_gate(PROOFS)
     binary = build_coop(chk)
     if binary:
-        streams = [("corpus", pure.corpus_cases("C17"))] + gen(chk, chk.tier)
+        streams = [("corpus", [c for c in pure.corpus_cases("C17") if not c.startswith("c17x")])] + gen(chk, chk.tier)
         pure.run_streams(chk, binary, streams, compare, monitor, nontrivial)
         # real-concurrency stress: implementation side only
         run_stress(chk, binary, gen_stress(chk, chk.tier), count=True)
@@ -613,6 +614,13 @@ def run(chk):
             chk.cov["vm_compute_crosschecked"] = coq_crosscheck(chk, sample, mo)
         except Exception as ex:
             chk.infra_errors.append("vm_compute cross-check failed: %r" % (ex,))
+    # sync.Mutex's Lock/Unlock (copy of the toolchain's source generated on this run) + the real TryLock, stepped against mx_step
+    try:
+        c17mx.run(chk)
+    except common.BuildError:
+        raise
+    except Exception as ex:
+        chk.infra_errors.append("mutex-stepped stream failed: %r" % (ex,))
     chk.finish(search=search)
 
 
@@ -646,7 +654,8 @@ def search(chk):
     if not binary:
         return
     chk.rng = chk.rng.fork()
-    cases = [c for _, cs in gen(chk, "quick") for c in cs] + pure.corpus_cases("C17")
+    cases = [c for _, cs in gen(chk, "quick") for c in cs] + [c for c in pure.corpus_cases("C17") if not c.startswith("c17x")]
+    c17mx.search(chk)
     run_stress(chk, binary, gen_stress(chk, "quick") * 2)
     impl = common.run_impl(binary, cases)
     for c, i in zip(cases, impl):
@@ -659,14 +668,17 @@ def replay(chk, path):
     rep = json.load(open(path))
     binary = build_coop(chk)
     cases = [x["case"] for x in rep.get("failing_inputs", []) + rep.get("divergences", []) if isinstance(x.get("case"), str) and x["case"].startswith("c17")]
-    impl = common.run_impl(binary, cases)
-    model = common.run_model(cases)
-    bad = 0
+    xcases = [c for c in cases if c.startswith("c17x")]
+    cases = [c for c in cases if not c.startswith("c17x")]
+    xbad = c17mx.replay_cases(chk, xcases)
+    impl = common.run_impl(binary, cases) if cases else []
+    model = common.run_model(cases) if cases else []
+    bad = xbad
     for c, m, i in zip(cases, model, impl):
         mf = monitor(c, i)
         cmpr = compare(c, m, i)
         print("case=%s\n  model=%s\n  impl=%s\n  monitor=%s compare=%s" % (c, m, i, mf, cmpr))
         if mf or cmpr:
             bad += 1
-    print("replayed %d case(s), %d still failing" % (len(cases), bad))
+    print("replayed %d case(s), %d still failing" % (len(cases) + len(xcases), bad))
     raise SystemExit(1 if bad else 0)
